@@ -53,6 +53,12 @@ CHECKS = {
  "C14": ("model_checking", "TLC model checking of RawReuse.tla (ResetIsFresh over all operation histories) + real decoder histories compared with new decoders, projections validated by TLC",
          "RawReuse.tla lets a decode leave any used state behind and checks that reset restores the projection of a new decoder; on the real objects seeded histories of valid / corrupt / truncated / property-changing / state-leaning streams and all reset variants are run, every decompress after a reset is repeated on a new object (verdict and bytes must agree) and the projection hook after every call is validated against the specification.",
          "5 C14"),
+ "C04": ("model_checking", "TLC model checking of Encoder.tla against the format semantics + TLC validation of the structure parsed from real encoder outputs + differential round trip through three decoders",
+         "Encoder.tla maps (input, source fragmentation, option) to the abstract symbol / chunk / field structure; TLC checks for all inputs up to 7 bytes, all options and all fragmentations that the format semantics decode it back to the input and that the container arithmetic is the format's. Real outputs for lengths around 0 and k*64 KiB x content families x fragmentations are parsed back and validated by TLC against that structure, and decoded by lzma-rs, the harness reference decoder and liblzma (when the xz program exists). The range encoder's carry arithmetic is outside TLA+ and is covered by the differential part.",
+         "5 C04"),
+ "C07": ("model_checking", "TLC invariants for index/arith bounds and termination on the structural models + seeded exploration of all decoding entry points with panic capture, watchdog and counting allocator, outcomes validated by TLC against Totality.tla",
+         "Model checking covers the structured part: every probability index inside its table for all 225 lc/lp/pb, window cursor/buffer bounds, no narrowing arithmetic in the container model, liveness of the decoder loop. The 'every byte string' part is necessarily exploration: 200 000 (quick) seeded inputs - random, mutated valid streams, CRC-repaired field extremes, huge headers, long outputs - through all six entry points with all options; each outcome (Ok/Err, bytes consumed/produced, peak heap) is an event that TLC validates against Totality.tla (no panic / hang event exists in the specification; peak <= A0 + K*(input+produced)).",
+         "5 C07, 8"),
 }
 NOT_YET = {}
 props = [json.loads(l) for l in open(os.path.join(V, "properties.jsonl"))]
